@@ -55,10 +55,13 @@ def space(ctx):
     rest += [c for c in make_cases(gen.ALPHA_INT, "i8", 3, FUNCS, pat) if len(c["vals"]) == 3]
     core += make_cases(gen.ALPHA_BOOL, "b1", 2, BOOL_FUNCS + ["sum", "count", "max", "min", "first", "last", "mean"], pat_nomiss)
     rest += [c for c in make_cases(gen.ALPHA_BOOL, "b1", 4, BOOL_FUNCS + ["sum", "nansum", "count", "max", "min", "first", "last", "mean", "argmax"], pat) if len(c["vals"]) >= 3]
-    rest += make_cases(gen.ALPHA_I1, "i1", 2, ["sum", "nansum", "prod", "max", "min", "mean", "count", "first", "last", "argmax", "argmin"], pat_nomiss)
-    rest += make_cases(gen.ALPHA_U1, "u1", 2, ["sum", "nansum", "prod", "max", "min", "mean", "count", "first", "last", "var", "nanvar"], pat_nomiss)
-    rest += make_cases(gen.ALPHA_INT, "i4", 2, ["sum", "prod", "mean", "var", "max", "argmin", "nanlast"], pat_nomiss)
-    rest += make_cases(gen.ALPHA_F8_FINITE, "f4", 2, ["sum", "nansum", "mean", "nanmax", "min", "nanargmin", "nanfirst", "count"], pat)
+    # narrow / unsigned / float32 inputs: small enough to be exhaustive
+    core += make_cases(gen.ALPHA_I1, "i1", 2, ["sum", "nansum", "prod", "max", "min", "mean", "count", "first", "last", "argmax", "argmin", "var", "nanstd"], pat_nomiss)
+    core += make_cases(gen.ALPHA_U1, "u1", 2, ["sum", "nansum", "prod", "nanprod", "max", "min", "mean", "count", "first", "last", "var", "nanvar", "std", "nanstd"], pat_nomiss)
+    core += make_cases([gen.iv(7), gen.iv(2), gen.iv(300), gen.iv(0)], "u2", 2, ["sum", "nansum", "mean", "var", "nanvar", "std", "max", "argmin"], pat_nomiss)
+    core += make_cases([gen.iv(9), gen.iv(4), gen.iv(1000)], "u4", 2, ["sum", "prod", "mean", "var", "nanstd", "min"], pat_nomiss)
+    core += make_cases(gen.ALPHA_INT, "i4", 2, ["sum", "prod", "mean", "var", "max", "argmin", "nanlast"], pat_nomiss)
+    core += make_cases(gen.ALPHA_F8_FINITE, "f4", 2, ["sum", "nansum", "mean", "nanmax", "min", "nanargmin", "nanfirst", "count", "var"], pat)
     if ctx.tier == "thorough":
         rest += [c for c in make_cases(gen.ALPHA_F8, "f8", 4, FUNCS, lambda n: gen.code_patterns(n)[:4] + gen.code_patterns(n)[-1:]) if len(c["vals"]) == 4]
     return core, rest
